@@ -562,20 +562,10 @@ Definition benign_reads : list (string * list var) := [
    of the repository as it is that accumulate into a variable of the enclosing function; a
    rolled-back attempt leaves its part behind (c09_retry_accumulating_refuted is their shape).
    The entries stop mattering once the patch is applied: the closures are closed then. *)
-Definition known_accumulating : list (string * list var) := [
-  ("Store.MigrateSectors", ["index"; "migrated"; "failed"]);
-  ("Store.RHP4CreditAccounts", ["balances"]);
-  ("Store.RHP4AccountBalances", ["balances"]);
-  ("Store.AccountFunding", ["srcs"]);
-  ("Store.Accounts", ["acc"]);
-  ("Store.Contracts", ["contracts"]);
-  ("Store.V2Contracts", ["contracts"]);
-  ("Store.RebroadcastFormationSets", ["rebroadcast"]);
-  ("Store.Peers", ["peers"]);
-  ("Store.UnspentSiacoinElements", ["utxos"]);
-  ("Store.WalletEvents", ["events"]);
-  ("Store.Volumes", ["volumes"]);
-  ("Store.Webhooks", ["hooks"]) ].
+Definition known_accumulating : list (string * list var) := [ ].
+(* empty since /repo a56b3e6 ("transaction closures start from a clean state when an attempt is
+   retried"): before that fix it listed Store.MigrateSectors (index, migrated, failed),
+   Store.RHP4CreditAccounts / RHP4AccountBalances (balances) and ten getters' named results *)
 Local Close Scope string_scope.
 
 Fixpoint exempt_vars (f : string) (l : list (string * list var)) : list var :=
